@@ -53,7 +53,8 @@ def answer (line : String) : String :=
     ";".intercalate outs ++
       s!" | needs={b2s w.needsApprove} clean={b2s cl} safe={b2s (failSafeB es {})} hazardAtFail={b2s hz} obs={showObs w.obs} dirtyBy={db} curnonempty={b2s (w.curCode != zeros)}"
 
-def run (_ : List String) : IO UInt32 := do
-  eachLine answer
-  return 0
 end NA.Drv.C13
+
+def main (_ : List String) : IO UInt32 := do
+  NA.IOUtil.eachLine NA.Drv.C13.answer
+  return 0
